@@ -68,7 +68,7 @@ class Convert:
             self.path_vars["output"].add(t.id)
           if isinstance(v, ast.Call) and unparse(v.func) == "json.loads" and v.args and unparse(v.args[0]) == f"{a}.config":
             self.cfg_inline = (t.id, st)
-          if isinstance(v, ast.Call) and unparse(v.func) == "json.load":
+          if any(isinstance(x, ast.Call) and unparse(x.func) == "json.load" for x in ast.walk(v)):
             self.cfg_file = (t.id, st)
         if isinstance(t, ast.Tuple) and isinstance(v, ast.Call) and unparse(v.func) == "os.path.splitext" and len(t.elts) == 2 and isinstance(t.elts[1], ast.Name):
           ext_vars[t.elts[1].id] = unparse(v.args[0])
@@ -294,6 +294,9 @@ def check_config(ctx):
   a = cv.args
   cond = (vi == vf and ti < tf and isinstance(gi, ast.If) and isinstance(gf, ast.If) and unparse(gi.test) == f"{a}.config is not None" and unparse(gf.test) == f"{a}.config_file is not None"
           and not gi.orelse and not gf.orelse)
+  replaces = isinstance(sf.value, ast.Call) and unparse(sf.value.func) == "json.load" and not any(isinstance(x, ast.Name) and x.id == vi for x in ast.walk(sf.value))
+  ctx.check(replaces, "CONFIG", f"{conv.qualname}|the configuration file replaces the inline configuration", ctx.where(conv.module, sf), f"`{vi} = json.load(...)`",
+            f"`{short(sf, 80)}` combines the file with the inline configuration instead of replacing it: sections given only inline still take effect although a configuration file is given")
   ctx.check(cond, "CONFIG", f"{conv.qualname}|the configuration file overrides the inline configuration", ctx.where(conv.module, sf), f"`{vi}` assigned from --config, then unconditionally re-assigned from --config_file when given",
             "--config_file must be applied after --config into the same variable, each under its own `is not None` test, so that the file wins when both are given")
   # the file that is loaded is the one named by --config_file
